@@ -284,7 +284,9 @@ func r18_2(r *Report, p *Program) {
 		if err != nil {
 			okC, whyC = false, err.Error()
 		}
-		positive := func(a string) bool { return strings.HasPrefix(a, "(0 < (") && strings.Contains(a, ".refCount[") && strings.HasSuffix(a, " - 1))") }
+		positive := func(a string) bool {
+			return strings.HasPrefix(a, "(0 < (") && strings.Contains(a, ".refCount[") && strings.HasSuffix(a, " - 1))")
+		}
 		for _, pa := range cpaths {
 			var effs []string
 			for _, e := range pa.Effects {
